@@ -30,6 +30,7 @@ var utInfos = []utInfo{
 	{ifs: []int{3}, qual: true, f1: true, f2: true}, {ifs: []int{0, 3}, lazy: true, f0: true}, {closer: true},
 	{ifs: []int{0}, pp: true}, {ifs: []int{2}, lazy: true, runner: true}, {ifs: []int{0, 1}, f1: true}, {ifs: []int{1}, qual: true},
 	{ifs: []int{0, 1}, pp: true}, {ifs: []int{1}, pp: true},
+	{ifs: []int{0, 2}}, {ifs: []int{1}, qual: true}, {ifs: []int{0}, pp: true},
 }
 
 var namePool = []string{"a", "b", "c", "d", "e", "f", "ga", "gz", "h", "k", "la", "lz", "m", "n", "p", "q", "s", "t", "u", "w", "x", "y", "za", "zz"}
@@ -164,7 +165,8 @@ func (g *gBuilder) randomSlots(i int, k int) {
 		case c < 8: // by name on a slice kind: the container ignores it (no candidates)
 			g.sc.nodes[i].slots[s] = "w" + g.nameOf(g.r.Intn(len(g.sc.nodes))) + g.args(false)
 		default: // func tag
-			fn := []string{"F0", "F1", "F2", "F1,returns=x", "F1,returns=x y", "F1,returns=*", "F2,returns=*", "F0,returns=", "Nope"}[g.r.Intn(9)]
+			fn := []string{"F0", "F1", "F2", "F1,returns=x", "F1,returns=x y", "F1,returns=*", "F2,returns=*", "F0,returns=", "Nope",
+				"F1,returns=x *", "F1,returns=y y"}[g.r.Intn(11)]
 			g.sc.nodes[i].slots[s] = "f" + fn + g.args(false)
 		}
 	}
@@ -499,7 +501,9 @@ func genFunc(r *hx.Rng) *gScen {
 		g.addNode(10, true)
 	}
 	nh := 1 + r.Intn(2)
-	tags := []string{"F1,returns=x", "F1,returns=y", "F1,returns=z", "F1,returns=x y", "F1,returns=*", "F0", "F0,returns=", "F2", "F2,returns=*", "F1"}
+	// overlapping alternatives (`x *`, `x x`, `* y`): a provider that satisfies several of them is still ONE candidate
+	tags := []string{"F1,returns=x", "F1,returns=y", "F1,returns=z", "F1,returns=x y", "F1,returns=*", "F0", "F0,returns=", "F2", "F2,returns=*", "F1",
+		"F1,returns=x *", "F1,returns=x x", "F1,returns=* y", "F1,returns=y x *"}
 	slots := []string{"X3", "A0", "A1", "A2", "AS0", "X0", "X1", "S0", "S1"}
 	for j := 0; j < nh; j++ {
 		h := g.addNode(g.randType(func(u utInfo) bool { return !u.pp }), r.P(1, 3))
